@@ -196,9 +196,12 @@ impl Commands {
 
         match self.commands.remove(command_name) {
             Some(command) => {
+                let removed_name = command.name();
                 let aliases = command.aliases();
                 for alias in &aliases {
-                    self.aliases.remove(alias);
+                    if self.aliases.get(alias) == Some(&removed_name) {
+                        self.aliases.remove(alias);
+                    }
                 }
 
                 true
